@@ -912,6 +912,17 @@ hwloc__xml_import_object(hwloc_topology_t topology,
     }
   }
 
+  /* check bridge types: printers and hwloc_topology_check() assert on anything else */
+  if (obj->type == HWLOC_OBJ_BRIDGE
+      && ((obj->attr->bridge.upstream_type != HWLOC_OBJ_BRIDGE_HOST
+           && obj->attr->bridge.upstream_type != HWLOC_OBJ_BRIDGE_PCI)
+          || obj->attr->bridge.downstream_type != HWLOC_OBJ_BRIDGE_PCI)) {
+    if (hwloc__xml_verbose())
+      fprintf(stderr, "%s: Bridge object with invalid or missing bridge_type\n",
+              state->global->msgprefix);
+    goto error_with_object;
+  }
+
   /* check parent vs child sets */
   if (obj->cpuset && parent && !parent->cpuset) {
     if (hwloc__xml_verbose())
